@@ -1030,54 +1030,6 @@ theorem PT.eval_WF {H : HashFn} (hk : HashLen H) {ign : Bool} : ∀ (t : PT) {h 
     exact hashNodes_WF hk (ihl (fun x hx => w x (by simp [PT.frontier, hx])) ha)
       (ihr (fun x hx => w x (by simp [PT.frontier, hx])) hb) hn
 
-/-- **agreement of a proof tree with the real tree** (idealised hash): if a proof tree evaluates to the root of the
-    leaf hashes `L`, its frontier nodes are the roots of consecutive segments of `L` -/
-theorem agree {H : HashFn} (hk : HashOK H) {ign ign' : Bool} : ∀ (t : PT) (fuel : Nat) (L : List NsHash) (r : NsHash),
-    L ≠ [] → L.length < fuel → AllLeaf H L → (∀ x ∈ t.frontier, x.WF) →
-    t.eval H ign = .ok r → computeRootAux H ign' fuel L = .ok r → Segs H ign' L t.frontier := by
-  intro t
-  induction t with
-  | leaf x =>
-    intro fuel L r hne hf _ _ e e'
-    simp [PT.eval] at e
-    subst e
-    have : computeRoot H ign' L = .ok x := by
-      unfold computeRoot; rw [computeRootAux_fuel _ fuel L (by omega) hf]; exact e'
-    exact Segs.single hne this
-  | node l rt ihl ihr =>
-    intro fuel L r hne hf al w e e'
-    obtain ⟨a, b, ha, hb, hn⟩ := PT.eval_node e
-    obtain ⟨f, rfl⟩ : ∃ f, fuel = f + 1 := ⟨fuel - 1, by omega⟩
-    match L, hne, hf, al, e' with
-    | [y], _, _, al, e' =>
-      exfalso
-      simp [computeRootAux] at e'
-      subst e'
-      obtain ⟨ns, d, _, hy⟩ := al y (by simp)
-      rw [hy] at hn
-      exact leaf_ne_node hk hn rfl
-    | a0 :: b0 :: rest, _, hf, al, e' =>
-      obtain ⟨l', rr', hl', hr', hn'⟩ := computeRootAux_cons2 e'
-      obtain ⟨m, hm, hmlt, _⟩ := nextSmallerPo2_spec (a0 :: b0 :: rest).length (by simp)
-      have h1 : 1 ≤ nextSmallerPo2 (a0 :: b0 :: rest).length := by rw [hm]; exact Nat.one_le_two_pow
-      have h2 : nextSmallerPo2 (a0 :: b0 :: rest).length < (a0 :: b0 :: rest).length := by rw [hm]; exact hmlt
-      have wa := PT.eval_WF hk.hlen l (fun x hx => w x (by simp [PT.frontier, hx])) ha
-      have wb := PT.eval_WF hk.hlen rt (fun x hx => w x (by simp [PT.frontier, hx])) hb
-      have wl' := computeRootAux_WF hk.hlen _ (AllLeaf.allWF hk.hlen (al.take _)) hl'
-      have wr' := computeRootAux_WF hk.hlen _ (AllLeaf.allWF hk.hlen (al.drop _)) hr'
-      obtain ⟨rfl, rfl⟩ := hashNodes_hash_inj hk wa wb wl' wr' hn hn' rfl
-      have htne : (a0 :: b0 :: rest).take (nextSmallerPo2 (a0 :: b0 :: rest).length) ≠ [] := by
-        intro h; have := congrArg List.length h; rw [List.length_take, List.length_nil] at this; omega
-      have hdne : (a0 :: b0 :: rest).drop (nextSmallerPo2 (a0 :: b0 :: rest).length) ≠ [] := by
-        intro h; have := congrArg List.length h; rw [List.length_drop, List.length_nil] at this; omega
-      have s1 := ihl f _ _ htne (by rw [List.length_take]; omega) (al.take _)
-        (fun x hx => w x (by simp [PT.frontier, hx])) ha hl'
-      have s2 := ihr f _ _ hdne (by rw [List.length_drop]; omega) (al.drop _)
-        (fun x hx => w x (by simp [PT.frontier, hx])) hb hr'
-      have := s1.append s2
-      rw [List.take_append_drop] at this
-      exact this
-
 theorem Segs.split {H : HashFn} {ign : Bool} : ∀ (r1 : List NsHash) {M r2 : List NsHash}, Segs H ign M (r1 ++ r2) →
     ∃ M1 M2, M = M1 ++ M2 ∧ Segs H ign M1 r1 ∧ Segs H ign M2 r2 := by
   intro r1
@@ -1092,28 +1044,6 @@ theorem Segs.split {H : HashFn} {ign : Bool} : ∀ (r1 : List NsHash) {M r2 : Li
 
 theorem Segs.nil_roots {H : HashFn} {ign : Bool} {M : List NsHash} (h : Segs H ign M []) : M = [] := by
   cases h; rfl
-
-/-- segments whose roots are leaf hashes are single leaves -/
-theorem Segs.leaves {H : HashFn} (hk : HashOK H) {ign : Bool} : ∀ {X M : List NsHash}, Segs H ign M X →
-    AllLeaf H M → (∀ x ∈ X, IsLeaf H x) → M = X := by
-  intro X
-  induction X with
-  | nil => intro M h _ _; exact h.nil_roots
-  | cons x t ih =>
-    intro M h al lx
-    cases h with
-    | @cons seg rest _ _ hne hr hrest =>
-      have hrest' := ih hrest (fun y hy => al y (List.mem_append_right _ hy)) (fun y hy => lx y (List.mem_cons_of_mem _ hy))
-      have hseg : seg = [x] := by
-        match seg, hne, hr with
-        | [y], _, hr => simp [computeRoot, computeRootAux] at hr; rw [hr]
-        | a :: b :: rest', _, hr =>
-          exfalso
-          obtain ⟨l, rr, _, _, hn⟩ := computeRootAux_cons2 hr
-          obtain ⟨ns, d, _, hx⟩ := lx x (by simp)
-          rw [hx] at hn
-          exact leaf_ne_node hk hn rfl
-      rw [hseg, hrest']; rfl
 
 theorem Segs.single_inv {H : HashFn} {ign : Bool} {M : List NsHash} {r : NsHash} (h : Segs H ign M [r]) :
     M ≠ [] ∧ computeRoot H ign M = .ok r := by
@@ -1186,22 +1116,6 @@ theorem right_none {H : HashFn} {MR rest : List NsHash} {r : NsHash} {ns : Bytes
       rw [← hze, heq] at this
       exact ltB_irrefl' (ltB_of_ltB_of_leB hchk this)
 
-/-- a non-empty list of leaf hashes never has the empty-tree root -/
-theorem computeRoot_ne_empty {H : HashFn} (hk : HashOK H) {ign : Bool} {L : List NsHash} {r : NsHash} (hne : L ≠ [])
-    (al : AllLeaf H L) (h : computeRoot H ign L = .ok r) : r ≠ emptyRoot H := by
-  intro he
-  match L, hne, al, h with
-  | [x], _, al, h =>
-    simp [computeRoot, computeRootAux] at h
-    obtain ⟨ns, d, _, hx⟩ := al x (by simp)
-    rw [← h, hx] at he
-    exact emptyRoot_ne_leaf hk (congrArg NsHash.hash he).symm
-  | a :: b :: rest, _, _, h =>
-    obtain ⟨l, rr, _, _, hn⟩ := computeRootAux_cons2 h
-    rw [he] at hn
-    exact emptyRoot_ne_node hk hn rfl
-
-
 theorem AllLeaf.leafNs {H : HashFn} {L : List NsHash} (al : AllLeaf H L) : ∀ x ∈ L, LeafNs x := by
   intro x hx
   obtain ⟨ns, d, hl, rfl⟩ := al x hx
@@ -1223,253 +1137,8 @@ theorem filter_of_block {L ML X MR : List NsHash} {ns : Bytes} (hL : L = ML ++ X
 theorem take_succ_last {α} {P : List α} {n : Nat} (hn : n < P.length) : P.take (n + 1) = P.take n ++ [P[n]] := by
   rw [List.take_succ, List.getElem?_eq_getElem hn]; rfl
 
-/-- the frontier decomposition obtained from an accepted non-trivial range proof against the real root -/
-theorem accepted_block {H : HashFn} (hk : HashOK H) {ign : Bool} {L : List NsHash} {root : NsHash} {X P : List NsHash} {s : Nat}
-    (hne : L ≠ []) (al : AllLeaf H L) (hroot : computeRoot H true L = .ok root)
-    (wp : ∀ x ∈ P, x.WF) (wx : ∀ x ∈ X, x.WF)
-    (hX : 1 ≤ X.length) (hnt : ¬ (X.length = 1 ∧ P = [])) (hu : s + X.length ≤ U32_MAX + 1)
-    (h : checkRangeProof H ign root X P s = .ok ()) :
-    computeNumLeftSiblings s ≤ P.length ∧ ∃ ML MX MR, L = ML ++ MX ++ MR ∧
-      Segs H true ML (P.take (computeNumLeftSiblings s)) ∧ Segs H true MX X ∧
-      Segs H true MR (P.drop (computeNumLeftSiblings s)) := by
-  obtain ⟨hnl, t, hfr, hev⟩ := checkRangeProof_frontier hX hnt hu h
-  refine ⟨hnl, ?_⟩
-  have wf : ∀ x ∈ t.frontier, x.WF := by
-    intro x hx
-    rw [hfr] at hx
-    rcases List.mem_append.mp hx with h1 | h1
-    · rcases List.mem_append.mp h1 with h2 | h2
-      · exact wp x (List.mem_of_mem_take h2)
-      · exact wx x h2
-    · exact wp x (List.mem_of_mem_drop h1)
-  have hseg := agree hk t (L.length + 1) L root hne (by omega) al wf hev hroot
-  rw [hfr, List.append_assoc] at hseg
-  obtain ⟨ML, M2, hL, hsl, h2⟩ := Segs.split _ hseg
-  obtain ⟨MX, MR, hM2, hsx, hsr⟩ := Segs.split _ h2
-  exact ⟨ML, MX, MR, by rw [hL, hM2, List.append_assoc], hsl, hsx, hsr⟩
-
-
 theorem leB_false_iff {a b : Bytes} : leB a b = false ↔ ltB b a = true := by
   unfold leB; simp
-
-/-- absence proofs: an accepted proof means no leaf of the tree has the namespace -/
-theorem absence_sound {H : HashFn} (hk : HashOK H) {ign : Bool} {L : List NsHash} {root : NsHash} {P : List NsHash} {s : Nat}
-    {lf : NsHash} {ns : Bytes}
-    (hne : L ≠ []) (al : AllLeaf H L) (hs : SortedNs L) (hroot : computeRoot H true L = .ok root)
-    (wp : ∀ x ∈ P, x.WF) (wlf : lf.WF) (hstart : s ≤ U32_MAX) (hns : ns.length = NS_SIZE)
-    (hcont : root.contains H ns = true) (hlt : leB lf.minNs ns = false)
-    (hleft : ∀ sib, computeNumLeftSiblings s > 0 → P[computeNumLeftSiblings s - 1]? = some sib → leB ns sib.maxNs = false)
-    (h : checkRangeProof H ign root [lf] P s = .ok ()) : ∀ y ∈ L, y.minNs ≠ ns := by
-  have hleaf := AllLeaf.leafNs al
-  by_cases hP : P = []
-  · -- single-node tree: the "leaf" is the root itself
-    subst hP
-    exfalso
-    unfold checkRangeProof at h
-    simp only [List.length_singleton, Nat.one_ne_zero, ↓reduceIte, List.isEmpty_nil, and_self] at h
-    split at h
-    · rename_i hc
-      simp only [List.head?_cons, Bool.and_eq_true, beq_iff_eq, Option.some.injEq] at hc
-      obtain ⟨rfl, _⟩ := hc
-      unfold NsHash.contains at hcont
-      simp only [Bool.and_eq_true] at hcont
-      rw [hcont.1.1] at hlt; cases hlt
-    · cases h
-  · obtain ⟨hnl, ML, MX, MR, hL, hsl, hsx, hsr⟩ := accepted_block hk hne al hroot wp
-      (by intro x hx; simp at hx; subst hx; exact wlf) (by simp) (by intro hc; exact hP hc.2) (by simp; omega) h
-    obtain ⟨hxne, hxroot⟩ := hsx.single_inv
-    have hs' := hs
-    unfold SortedNs at hs'
-    rw [hL, List.append_assoc, List.pairwise_append] at hs'
-    obtain ⟨hsML, hsrest, _⟩ := hs'
-    rw [List.pairwise_append] at hsrest
-    obtain ⟨hsMX, hsMR, hcrossXR⟩ := hsrest
-    have hmemL : ∀ y, y ∈ L → y ∈ ML ∨ y ∈ MX ∨ y ∈ MR := by
-      intro y hy; rw [hL] at hy; simp only [List.mem_append] at hy
-      rcases hy with (h | h) | h
-      · exact Or.inl h
-      · exact Or.inr (Or.inl h)
-      · exact Or.inr (Or.inr h)
-    have hsub : ∀ y, (y ∈ ML ∨ y ∈ MX ∨ y ∈ MR) → y ∈ L := by
-      intro y hy; rw [hL]; simp only [List.mem_append]
-      rcases hy with h | h | h
-      · exact Or.inl (Or.inl h)
-      · exact Or.inl (Or.inr h)
-      · exact Or.inr h
-    have RX := computeRoot_range hxne (fun x hx => hleaf x (hsub x (Or.inr (Or.inl hx)))) hsMX hxroot
-    have hltns : ltB ns lf.minNs = true := leB_false_iff.mp hlt
-    -- ns is not the parity namespace
-    have hnm : ns ≠ maxNsId := by
-      intro he
-      have := leB_maxNsId NS_SIZE lf.minNs wlf.1
-      rw [he] at hltns
-      unfold leB at this
-      rw [show List.replicate NS_SIZE (255 : UInt8) = maxNsId from rfl, hltns] at this
-      cases this
-    intro y hy heq
-    rcases hmemL y hy with hm | hm | hm
-    · -- left of the leaf
-      by_cases h0 : computeNumLeftSiblings s = 0
-      · rw [h0] at hsl
-        simp at hsl
-        have := hsl.nil_roots
-        subst this; simp at hm
-      · have hlt' : computeNumLeftSiblings s - 1 < P.length := by omega
-        have htk : P.take (computeNumLeftSiblings s) = P.take (computeNumLeftSiblings s - 1) ++ [P[computeNumLeftSiblings s - 1]] := by
-          have := take_succ_last hlt'
-          have e : computeNumLeftSiblings s - 1 + 1 = computeNumLeftSiblings s := by omega
-          rw [e] at this; exact this
-        rw [htk] at hsl
-        have hchk := hleft _ (by omega) (List.getElem?_eq_getElem hlt')
-        exact left_none hsl (fun x hx => hleaf x (hsub x (Or.inl hx))) hsML hns hnm (leB_false_iff.mp hchk) y hm heq
-    · have := RX.minLe y hm
-      rw [heq] at this
-      rw [this] at hlt; cases hlt
-    · obtain ⟨z, hz, hze⟩ := RX.minMem
-      have := hcrossXR z hz y hm
-      rw [← hze, heq] at this
-      rw [this] at hlt; cases hlt
-
-/-- presence proofs: an accepted complete-namespace proof means the leaves are exactly the tree's leaves of the namespace -/
-theorem presence_sound {H : HashFn} (hk : HashOK H) {ign : Bool} {L : List NsHash} {root : NsHash} {P : List NsHash} {s : Nat}
-    {ns : Bytes} {datas : List Bytes}
-    (hne : L ≠ []) (al : AllLeaf H L) (hs : SortedNs L) (hroot : computeRoot H true L = .ok root)
-    (wp : ∀ x ∈ P, x.WF) (hend : s + datas.length ≤ U32_MAX + 1) (hns : ns.length = NS_SIZE)
-    (hcont : root.contains H ns = true) (hd : 1 ≤ datas.length)
-    (h : nmtCheckRangeProof H ign root (datas.map (hashLeaf H ns)) P s = .ok true) :
-    L.filter (fun x => x.minNs == ns) = datas.map (hashLeaf H ns) := by
-  have hleaf := AllLeaf.leafNs al
-  have hXlen : (datas.map (hashLeaf H ns)).length = datas.length := by simp
-  have hXleaf : ∀ x ∈ datas.map (hashLeaf H ns), IsLeaf H x := by
-    intro x hx; obtain ⟨d, _, rfl⟩ := List.mem_map.mp hx; exact ⟨ns, d, hns, rfl⟩
-  have hXns : ∀ x ∈ datas.map (hashLeaf H ns), x.minNs = ns := by
-    intro x hx; obtain ⟨d, _, rfl⟩ := List.mem_map.mp hx; rfl
-  have RL := computeRoot_range hne hleaf hs hroot
-  unfold nmtCheckRangeProof at h
-  have h0 : ¬ ((datas.map (hashLeaf H ns)).length = 0) := by rw [hXlen]; omega
-  simp only [h0, ↓reduceIte] at h
-  by_cases htriv : (datas.map (hashLeaf H ns)).length = 1 ∧ P.isEmpty = true
-  · -- single-leaf tree
-    simp only [htriv, and_self, ↓reduceIte] at h
-    split at h
-    · rename_i hc
-      simp only [Bool.and_eq_true, beq_iff_eq] at hc
-      match hX : datas.map (hashLeaf H ns), htriv.1 with
-      | [x], _ =>
-        rw [hX] at hc
-        simp only [List.head?_cons, Option.some.injEq] at hc
-        obtain ⟨rfl, _⟩ := hc
-        -- the real tree is that single leaf
-        have hLx : L = [x] := by
-          match L, hne, hroot, al with
-          | [y], _, hroot, _ => simp [computeRoot, computeRootAux] at hroot; rw [hroot]
-          | a :: b :: rest, _, hroot, _ =>
-            exfalso
-            obtain ⟨l, rr, _, _, hn⟩ := computeRootAux_cons2 hroot
-            obtain ⟨ns', d', _, hx⟩ := hXleaf x (by rw [hX]; simp)
-            rw [hx] at hn
-            exact leaf_ne_node hk hn rfl
-        rw [hLx]
-        have := hXns x (by rw [hX]; simp)
-        simp [this]
-    · cases h
-  · simp only [htriv, ↓reduceIte] at h
-    split at h
-    · cases h
-    · split at h
-      · cases h
-      · rename_i complete hcomp
-        split at h
-        · cases h
-        · rename_i hchk
-          simp only [Except.ok.injEq] at h
-          subst h
-          have hnt : ¬ ((datas.map (hashLeaf H ns)).length = 1 ∧ P = []) := by
-            intro hc; exact htriv ⟨hc.1, by simp [hc.2]⟩
-          obtain ⟨hnl, ML, MX, MR, hL, hsl, hsx, hsr⟩ := accepted_block hk hne al hroot wp
-            (fun x hx => (hXleaf x hx).WF hk.hlen) (by rw [hXlen]; exact hd) hnt (by rw [hXlen]; exact hend) hchk
-          have hsub : ∀ y, (y ∈ ML ∨ y ∈ MX ∨ y ∈ MR) → y ∈ L := by
-            intro y hy; rw [hL]; simp only [List.mem_append]
-            rcases hy with h | h | h
-            · exact Or.inl (Or.inl h)
-            · exact Or.inl (Or.inr h)
-            · exact Or.inr h
-          have hMX : MX = datas.map (hashLeaf H ns) :=
-            Segs.leaves hk hsx (fun y hy => al y (hsub y (Or.inr (Or.inl hy)))) hXleaf
-          have hs' := hs
-          unfold SortedNs at hs'
-          rw [hL, List.append_assoc, List.pairwise_append] at hs'
-          obtain ⟨hsML, hsrest, _⟩ := hs'
-          rw [List.pairwise_append] at hsrest
-          obtain ⟨_, hsMR, _⟩ := hsrest
-          -- unpack the completeness check
-          unfold checkProofCompleteness at hcomp
-          have hnp : ¬ (computeNumLeftSiblings s ≠ 0 ∧ P.length < computeNumLeftSiblings s) := by omega
-          simp only [hnp, ↓reduceIte, Except.ok.injEq, Bool.and_eq_true] at hcomp
-          obtain ⟨hc1, hc2⟩ := hcomp
-          obtain ⟨d0, dt, hdat⟩ : ∃ d0 dt, datas = d0 :: dt := by
-            cases datas with
-            | nil => simp at hd
-            | cons a b => exact ⟨a, b, rfl⟩
-          have hhead : (datas.map (hashLeaf H ns)).head? = some (hashLeaf H ns d0) := by rw [hdat]; rfl
-          have hlast : ∃ dl, (datas.map (hashLeaf H ns)).getLast? = some (hashLeaf H ns dl) := by
-            have hne' : datas ≠ [] := by rw [hdat]; simp
-            exact ⟨datas.getLast hne', by rw [List.getLast?_map, List.getLast?_eq_some_getLast hne']; rfl⟩
-          obtain ⟨dl, hlast⟩ := hlast
-          refine (filter_of_block (by rw [hL, hMX]) ?_ ?_ hXns)
-          · -- left part
-            by_cases hz : computeNumLeftSiblings s = 0
-            · rw [hz] at hsl; simp at hsl
-              have := hsl.nil_roots
-              subst this; intro y hy; simp at hy
-            · have hlt' : computeNumLeftSiblings s - 1 < P.length := by omega
-              have htk : P.take (computeNumLeftSiblings s) = P.take (computeNumLeftSiblings s - 1) ++ [P[computeNumLeftSiblings s - 1]] := by
-                have := take_succ_last hlt'
-                have e : computeNumLeftSiblings s - 1 + 1 = computeNumLeftSiblings s := by omega
-                rw [e] at this; exact this
-              rw [htk] at hsl
-              simp only [ne_eq, hz, not_false_eq_true, ↓reduceIte, List.getElem?_eq_getElem hlt', hhead] at hc1
-              have hchk1 : ltB (P[computeNumLeftSiblings s - 1]).maxNs ns = true := hc1
-              by_cases hnm : ns = maxNsId
-              · -- parity namespace: the whole tree is parity, so the left sibling's max is parity too: contradiction
-                exfalso
-                unfold NsHash.contains at hcont
-                simp only [Bool.and_eq_true] at hcont
-                have wroot := computeRoot_WF hk.hlen (AllLeaf.allWF hk.hlen al) hroot
-                have hrm : root.maxNs = maxNsId := eq_maxNsId_of_le wroot.2.1 (by rw [← hnm]; exact hcont.1.2)
-                have hall : ∀ x ∈ L, x.minNs = maxNsId := by
-                  intro x hx
-                  apply Classical.byContradiction
-                  intro hne'
-                  exact RL.maxNotAll ⟨x, hx, hne'⟩ hrm
-                obtain ⟨M1, seg, hM, _, h2⟩ := Segs.split _ hsl
-                obtain ⟨hsne, hsroot⟩ := h2.single_inv
-                have hsML' := hsML
-                rw [hM, List.pairwise_append] at hsML'
-                have Rs := computeRoot_range hsne (fun x hx => hleaf x (hsub x (Or.inl (by rw [hM]; exact List.mem_append_right _ hx))))
-                  hsML'.2.1 hsroot
-                have := Rs.maxAll (fun x hx => hall x (hsub x (Or.inl (by rw [hM]; exact List.mem_append_right _ hx))))
-                rw [this, hnm] at hchk1
-                exact ltB_irrefl' hchk1
-              · exact left_none hsl (fun x hx => hleaf x (hsub x (Or.inl hx))) hsML hns hnm hchk1
-          · -- right part
-            cases hdr : P.drop (computeNumLeftSiblings s) with
-            | nil =>
-              rw [hdr] at hsr
-              have := hsr.nil_roots
-              subst this; intro y hy; simp at hy
-            | cons r rest =>
-              rw [hdr] at hsr
-              have hlen2 : P.length - computeNumLeftSiblings s ≠ 0 := by
-                have := congrArg List.length hdr
-                simp only [List.length_drop, List.length_cons] at this; omega
-              have hget : P[computeNumLeftSiblings s]? = some r := by
-                have := congrArg (fun l => l[0]?) hdr
-                simpa using this
-              simp only [ne_eq, hlen2, not_false_eq_true, ↓reduceIte, hget, hlast] at hc2
-              have hchk2 : ltB ns r.minNs = true := hc2
-              exact right_none hsr (fun x hx => hleaf x (hsub x (Or.inr (Or.inr hx)))) hsMR hchk2
-
 
 theorem luminaVCN_ok {H : HashFn} {p : NsProof} {root : NsHash} {l : List Bytes} {ns : Bytes}
     (h : luminaVerifyCompleteNamespace H p root l ns = .ok ()) : verifyCompleteNamespace H p root l ns = .ok () := by
@@ -1477,88 +1146,6 @@ theorem luminaVCN_ok {H : HashFn} {p : NsProof} {root : NsHash} {l : List Bytes}
   split at h
   · cases h
   · exact h
-
-/-- **Soundness of `verify_complete_namespace`** against the root of a namespace-sorted list of leaf hashes whose
-    range covers the namespace: accepted raw leaves are exactly the tree's leaves of that namespace (none for an
-    absence proof).  `hwpt` is the proof-type/emptiness agreement that `RowNamespaceData::verify` checks first. -/
-theorem vcn_sound {H : HashFn} (hk : HashOK H) {L : List NsHash} {root : NsHash} {p : NsProof} {ns : Bytes} {datas : List Bytes}
-    (hne : L ≠ []) (al : AllLeaf H L) (hs : SortedNs L) (hroot : computeRoot H true L = .ok root)
-    (wp : ∀ x ∈ p.siblings, x.WF) (wl : ∀ l, p.leaf = some l → l.WF)
-    (hstart : p.start ≤ U32_MAX) (hend : p.end_ ≤ U32_MAX) (hns : ns.length = NS_SIZE)
-    (hwpt : datas.isEmpty = p.isAbsence) (hcont : root.contains H ns = true)
-    (h : verifyCompleteNamespace H p root datas ns = .ok ()) :
-    L.filter (fun x => x.minNs == ns) = datas.map (hashLeaf H ns) := by
-  unfold verifyCompleteNamespace at h
-  split at h
-  · cases h
-  · rename_i hlen
-    unfold verifyNamespace at h
-    have hnotempty : root.isEmptyRoot H = false := by
-      unfold NsHash.isEmptyRoot
-      have := computeRoot_ne_empty hk hne al hroot
-      simpa using this
-    simp only [hnotempty, Bool.false_and, Bool.false_eq_true, ↓reduceIte] at h
-    by_cases hab : p.isAbsence = true
-    · -- absence proof
-      have hd : datas = [] := by
-        rw [hab] at hwpt
-        cases datas with
-        | nil => rfl
-        | cons a b => simp at hwpt
-      subst hd
-      simp only [hab, ↓reduceIte, hcont, Bool.not_true, Bool.false_eq_true] at h
-      cases hleaf : p.leaf with
-      | none => simp [hleaf] at h
-      | some lf =>
-        simp only [hleaf, List.isEmpty_nil, Bool.not_true, Bool.false_eq_true, ↓reduceIte] at h
-        by_cases hlt : leB lf.minNs ns = true
-        · simp [hlt] at h
-        · simp only [hlt, Bool.false_eq_true, ↓reduceIte] at h
-          by_cases hnp : computeNumLeftSiblings p.start > 0 ∧ p.siblings.length < computeNumLeftSiblings p.start
-          · simp [hnp] at h
-          · simp only [hnp, ↓reduceIte] at h
-            generalize hbad : (if computeNumLeftSiblings p.start > 0 then
-                match p.siblings[computeNumLeftSiblings p.start - 1]? with
-                | some sib => leB ns sib.maxNs
-                | none => false
-              else false) = bad at h
-            cases bad with
-            | true => simp at h
-            | false =>
-              simp only [Bool.false_eq_true, ↓reduceIte] at h
-              have hnone := absence_sound hk hne al hs hroot wp (wl lf hleaf) hstart hns hcont
-                (by simpa using hlt)
-                (by
-                  intro sib hpos hget
-                  have := hbad
-                  simp only [hpos, ↓reduceIte, hget] at this
-                  exact this) h
-              simp only [List.map_nil]
-              rw [List.filter_eq_nil_iff]
-              intro a ha
-              simpa using hnone a ha
-    · -- presence proof
-      have hab' : p.isAbsence = false := by simpa using hab
-      have hdne : datas.isEmpty = false := by rw [hwpt, hab']
-      have hd1 : 1 ≤ datas.length := by
-        cases datas with
-        | nil => simp at hdne
-        | cons a b => simp
-      simp only [hab', Bool.false_eq_true, ↓reduceIte, hcont, Bool.not_true] at h
-      have hlen' : datas.length = p.rangeLen := by
-        simp only [hab', Bool.not_false, Bool.true_and, decide_eq_true_eq, ne_eq, Decidable.not_not] at hlen
-        exact hlen
-      split at h
-      · cases h
-      · rename_i complete hck
-        split at h
-        · rename_i hc
-          subst hc
-          have hend' : p.start + datas.length ≤ U32_MAX + 1 := by
-            unfold NsProof.rangeLen at hlen'; omega
-          exact presence_sound hk hne al hs hroot wp hend' hns hcont hd1 hck
-        · cases h
-
 
 /-! ## Relative collision-freeness (`HashOKOn`): ports of the hash-dependent lemmas -/
 
